@@ -259,6 +259,22 @@ def ks_for(rng, n, tier):
 
 
 
+READ_OPS = ("enc", "print", "chk", "nb", "unb", "xeq", "xfp")       # operations that only read the structure
+
+
+def hex_digest(hexs):
+    """the form the harness uses for long outputs: #<len>.<fnv1a-64>"""
+    if hexs is None or hexs.startswith("#"):
+        return hexs
+    b = bytes.fromhex(hexs) if hexs not in ("-", "") else b""
+    if len(b) <= 256:
+        return hexs if b else "-"
+    hsh = 0xcbf29ce484222325
+    for c in b:
+        hsh = ((hsh ^ c) * 0x100000001b3) & 0xffffffffffffffff
+    return "#%d.%016x" % (len(b), hsh)
+
+
 def check_history(run, rep, h, p, x, fresh):
     """the C14 oracle on one parsed result line; x = failing replay descriptor or None"""
     c = h["case"]
@@ -284,7 +300,7 @@ def check_history(run, rep, h, p, x, fresh):
             bad.append(("harness", i, "bad op %d" % i))
             continue
         cur = live_of(d)
-        if d["op"] in ("enc", "print", "chk") and cur != prev:
+        if d["op"] in READ_OPS and cur != prev:
             # an operation that only reads the structure must leave the heap as it found it
             bad.append(("leak-in-%s" % d["op"], i, "op %d (%s): live went from %d/%d to %d/%d across a call that only reads the structure"
                         % (i, name, prev[0], prev[1], cur[0], cur[1])))
@@ -336,6 +352,38 @@ def check_history(run, rep, h, p, x, fresh):
                     bad.append(("member-reset-not-fresh", i, "%s: decode after RESET makes %s allocations, into a fresh structure %s (one more expected: the structure itself)" % (who, d.get("a"), d.get("fa"))))
                 if d.get("fl") != "0/0":
                     bad.append(("leak", i, "%s: the fresh reference structure left %s blocks/bytes after ASN_STRUCT_FREE" % (who, d.get("fl"))))
+        if d["op"] == "nb" and "skip" not in d:
+            # asn_encode_to_new_buffer: a buffer is returned iff the call succeeded; it holds what the callback API delivers
+            syn = ops[i].split(":")[-1]
+            ret, buf = int(d.get("ret", "-1")), d.get("buf")
+            if ret < 0 and buf != "0":
+                bad.append(("newbuf-on-failure", i, "op %d: asn_encode_to_new_buffer(%s) failed (%s) and still returned a buffer" % (i, syn, d.get("errno"))))
+            if ret >= 0 and buf != "1" and d.get("f") == "0":
+                bad.append(("newbuf-missing", i, "op %d: asn_encode_to_new_buffer(%s) reports %d octets and returns no buffer although no allocation failed" % (i, syn, ret)))
+            if buf == "1" and d.get("z") == "0":
+                bad.append(("newbuf-unterminated", i, "op %d: the returned buffer is not NUL-terminated after %d octets" % (i, ret)))
+            if buf == "1" and d.get("bs") == "-1":
+                bad.append(("newbuf-foreign", i, "op %d: the returned buffer is not a live block of the allocator" % i))
+            ref = [j for j in range(i) if p[j]["op"] == "enc" and ops[j].split("@")[0] == "enc" and ops[j].split(":")[-1] == syn]
+            if ref and "skip" not in p[ref[-1]] and p[ref[-1]].get("f") == "0" and d.get("f") == "0":
+                e = p[ref[-1]]
+                if (int(e.get("ret", "-1")) < 0) != (ret < 0):
+                    bad.append(("newbuf-differs", i, "op %d: asn_encode(%s) returns %s, asn_encode_to_new_buffer %s on the same structure" % (i, syn, e.get("ret"), ret)))
+                elif ret >= 0 and buf == "1" and hex_digest(e.get("hex")) != d.get("hex"):
+                    bad.append(("newbuf-differs", i, "op %d: the new buffer of asn_encode_to_new_buffer(%s) differs from what asn_encode hands to a callback" % (i, syn)))
+        if d["op"] == "unb" and "skip" not in d:
+            ret, buf = int(d.get("ret", "-1")), d.get("buf")
+            if ret < 0 and buf == "1":
+                bad.append(("newbuf-on-failure", i, "op %d: uper_encode_to_new_buffer failed and still stored a buffer pointer" % i))
+            if ret > 0 and (buf != "1" or d.get("bs") == "-1"):
+                bad.append(("newbuf-missing", i, "op %d: uper_encode_to_new_buffer returns %d and no live buffer" % (i, ret)))
+            ref = [j for j in range(i) if p[j]["op"] == "enc" and ops[j] == "enc:uper"]
+            if ref and p[ref[-1]].get("f") == "0" and d.get("f") == "0":
+                e = p[ref[-1]]
+                if (int(e.get("ret", "-1")) < 0) != (ret < 0):
+                    bad.append(("newbuf-differs", i, "op %d: asn_encode(uper) returns %s, uper_encode_to_new_buffer %s on the same structure" % (i, e.get("ret"), ret)))
+                elif ret > 0 and buf == "1" and hex_digest(e.get("hex") if e.get("hex") != "-" else "00") != d.get("hex"):
+                    bad.append(("newbuf-differs", i, "op %d: the new buffer of uper_encode_to_new_buffer differs from what asn_encode(uper) hands to a callback" % i))
         prev = cur
     if live_of(end) != (0, 0) or end.get("st") != "0":
         bad.append(("leak", len(p) - 1, "at the end of the history live=%s st=%s" % (end.get("live"), end.get("st"))))
@@ -351,6 +399,10 @@ def check_history(run, rep, h, p, x, fresh):
                 bad.append(("unclean-success", x["i"], "decode reports RC_OK with a failed allocation and the value differs from the undisturbed decode"))
         if d["op"] == "enc" and int(d.get("ret", "-1")) >= 0 and d.get("hex") != b.get("hex"):
             bad.append(("unclean-success", x["i"], "encode reports success with a failed allocation and different bytes"))
+        if d["op"] in ("nb", "unb") and d.get("buf") == "1" and d.get("hex") != b.get("hex"):
+            bad.append(("unclean-success", x["i"], "%s returns a buffer with a failed allocation and different bytes" % d["op"]))
+        if d["op"] == "xeq" and d.get("ret") == "0" and b.get("ret") != "0":
+            bad.append(("unclean-success", x["i"], "xer_equivalent reports equivalence with a failed allocation, and not without"))
     else:
         # "a decode after RESET behaves exactly as into a fresh structure": every complete-input dec that follows a reset
         # is compared with the history that decodes the same bytes into a NULL pointer (fresh[(module, type, op text)])
@@ -376,7 +428,7 @@ def check_history(run, rep, h, p, x, fresh):
                     j += 1
         if h["kind"] == "alt-ber":
             run.count("alt_ber_dec_%s" % p[0].get("rc"))
-            if p[0].get("rc") == "OK" and c.get("der") and p[1].get("hex") != c["der"]:
+            if p[0].get("rc") == "OK" and c.get("der") and p[1].get("hex") != hex_digest(c["der"]):
                 bad.append(("value", 0, "an alternative BER form decodes to a different value"))
         if h["kind"] == "fresh":
             run.count("fresh_dec_%s_%s" % (h["syn"], p[0].get("rc")))
@@ -389,7 +441,7 @@ def check_history(run, rep, h, p, x, fresh):
                     run.violation("correspondence:Heap.owned", dict(rep, what="after a successful %s decode the C holds %s live blocks, the model's structure owns %s (%s)"
                                                                     % (h["syn"], nC, own["n"], " ".join("%s=%s" % kv for kv in own.items())),
                                                                     c=h["out"][:600]), no_input=True)
-            if p[0].get("rc") == "OK" and c.get("der") and p[1].get("hex") != c["der"]:
+            if p[0].get("rc") == "OK" and c.get("der") and p[1].get("hex") != hex_digest(c["der"]):
                 bad.append(("value", 0, "valid %s encoding decodes to a different value" % h["syn"]))
     for kind, opi, what in bad:
         run.violation("oracle:%s(%s)" % (kind, kindtag), dict(rep, what=what, c=" | ".join("%s %s" % (d["op"], " ".join("%s=%s" % kv for kv in d.items() if kv[0] not in ("op", "hex", "pre", "post"))) for d in p)))
